@@ -106,7 +106,9 @@ var props = map[string]propSpec{
 	}},
 	"C15": {Level: "model_checking", Harnesses: []harnessSpec{
 		{Name: "bridge", Quick: 120, Thorough: 900, Args: []string{"-prop", "C15"}},
+		{Name: "bboxbridge", NoRewrite: true, Quick: 120, Thorough: 600},
 	}, Assume: []string{
+		"black box (harness bboxbridge): the real tcp-bridge-frontend and tcp-bridge-backend programs as processes over loopback, the same plans without schedule control, plus HTTP pass-through requests to the bridge backend",
 		"tcp-bridge-frontend's main() and connection.Handler joined in one process; TCP is the in-memory stream fake (unbounded socket buffers), the websocket library the in-memory message fake",
 		"write plans of <=3 writes per direction with sizes {0,1,2,1024,1025,32768,32769,70000}, reader buffers {1,7,4096,65536}, both directions at once, 1-2 concurrent connections; schedules delay-bounded on the small plans, default schedule on the large ones",
 		"the pass-through of non-bridge HTTP requests through the real tcp-bridge-backend binary is not covered",
